@@ -71,13 +71,21 @@ class JaggedArray:
                         shapes.append((len(flattenedList),))
                         offset += len(flattenedList)
                         flattenedArray.extend(flattenedList)
-            elif isinstance(arr, (int, float)):
+            elif isinstance(arr, (int, float, np.number, np.bool_)):
                 offsets.append(offset)
                 shapes.append((1,))
                 offset += 1
                 flattenedArray.append(arr)
             elif arr is None:
                 nones.append(i)
+            else:
+                # skipping the entry would shift all later entries to the wrong objects
+                raise ValueError(
+                    "Cannot flatten the data of parameter {}: entry {} is a {}, which "
+                    "is not an array, list, tuple, number or None.".format(
+                        paramName, i, type(arr).__name__
+                    )
+                )
 
         self.flattenedArray = np.array(flattenedArray)
         self.offsets = np.array(offsets)
